@@ -123,6 +123,29 @@ class Taint:
                         if not dest["p"]:
                             if self.mark(f, dest["l"]):
                                 changed = True
+                    if targs and not callee:
+                        # a tainted value handed to an opaque callee together with a `&mut` place may be stored there
+                        # (Option::get_or_insert, mem::replace, Vec::push ...)
+                        for a in t["args"]:
+                            al = op_local(a)
+                            if al is None:
+                                continue
+                            d = f.single_def(al)
+                            for _ in range(4):
+                                if d and d[0] == "assign" and d[3]["rv"] == "ref" and d[3].get("mut"):
+                                    tl = d[3]["pl"]["l"]
+                                    if d[3]["pl"]["p"] and d[3]["pl"]["p"] == ["*"]:
+                                        d = f.single_def(tl)     # reborrow `&mut *_x`
+                                        continue
+                                    if not d[3]["pl"]["p"] or all(isinstance(e, dict) and "n" in e for e in d[3]["pl"]["p"]):
+                                        if not d[3]["pl"]["p"]:
+                                            if self.mark(f, tl):
+                                                changed = True
+                                        else:
+                                            chain = facts._place_base_adts(f, d[3]["pl"])
+                                            if chain and chain[-1][0] and chain[-1] not in self.fields:
+                                                self.fields.add(chain[-1]); changed = True
+                                break
                 # returns
                 if (fid, 0) in self.t and fid not in self.ret:
                     self.ret.add(fid); changed = True
